@@ -331,7 +331,7 @@ def run(ctx, report: Report) -> None:
                 nontrivial=False)
 
     # ---- R2 --------------------------------------------------------------------------------------------
-    r2 = report.rule('C04-R2', 'matcher state is per call', floor=3)
+    r2 = report.rule('C04-R2', 'matcher state is per call', floor=2)
     # decision table of the SoupSieve methods with a recording stand-in for CSSMatch: one fresh matcher per call target,
     # scoped on that target, never shared between the items of an iterable
     from .sem import soupsieve_methods_table
@@ -358,7 +358,7 @@ def run(ctx, report: Report) -> None:
     r2.instance({'functions_reachable_from_matching_api': len(reach)}, key='reach', nontrivial=False)
 
     # ---- R3 --------------------------------------------------------------------------------------------
-    r3 = report.rule('C04-R3', 'memo tables are transparent', floor=7)
+    r3 = report.rule('C04-R3', 'memo tables are transparent', floor=4)
     _, init = src.func('css_match.CSSMatch.__init__')
     memos = {}
     for st in walk_no_nested(init):
@@ -481,7 +481,7 @@ def run(ctx, report: Report) -> None:
     default_button_table(ctx, r3)
 
     # ---- R5 (the whole pipeline by interpretation, bounded) --------------------------------------------------------------
-    r5 = report.rule('C04-R5', 'a compiled selector answers the same after any sequence of other queries (bounded)', floor=5)
+    r5 = report.rule('C04-R5', 'a compiled selector answers the same after any sequence of other queries (bounded)', floor=3)
     from .e2ematch import history_table
     history_table(ctx, r5)
 
